@@ -91,7 +91,10 @@ def generate(seed, tier):
         cases[key] = Case(key, code)
     # explicit aliasing patterns of the destination used element-wise
     alias = [('D = D + A % B', []), ('D = A % B + D', []), ('D = A % B - D', []), ('D += D + A % B', []), ('D -= A % B * D', []), ('D = D * (A % B) + D', []), ('D = -D + trans(A)', []),
-             ('D = trans(A) - D', []), ('D = inv(A) + D', []), ('D += D - inv(A)', []), ('D = D + A % B % C', []), ('D *= D + A % B', []), ('D = (A % B) * D - D', []), ('D = s * D + trans(A % B)', [])]
+             ('D = trans(A) - D', []), ('D = inv(A) + D', []), ('D += D - inv(A)', []), ('D = D + A % B % C', []), ('D *= D + A % B', []), ('D = (A % B) * D - D', []), ('D = s * D + trans(A % B)', []),
+             # the aliasing operand is an element-wise EXPRESSION of the destination, not the bare destination
+             ('D += A % B - (D + D)', []), ('D -= A % B + D * C', []), ('D += A % B + abs(D)', []), ('D -= A % B - (C + D)', []), ('D += (D - C) + A % B', []), ('D -= inv(A) - (D * D)', []),
+             ('D += trans(A) - (D + C)', []), ('D = A % B - (D + D)', []), ('D *= A % B - (D + D)', [])]
     for (stmt_txt, _) in alias:
         for n in ([3, 8] if quick else sizes):
             for tn, tk in FT:
